@@ -9,6 +9,7 @@ import (
 	"sort"
 	"strings"
 
+	"github.com/a-h/templ/cmd/templ/imports"
 	"github.com/a-h/templ/generator"
 	parser "github.com/a-h/templ/parser/v2"
 
@@ -28,8 +29,29 @@ type Case struct {
 	P2    string // format(format(src)); "" with P2Err if the first output does not parse
 	P3    string
 	P2Err string
+	F1    string // full `templ fmt` pipeline (imports processing) on Src; "" if it failed
+	F2    string // ... on F1
 	Code  string // Go code generated from Src
 	SameStructure bool // parse(format x) has the same node structure as parse(x)
+}
+
+// FormatFull is what `templ fmt <file>` and format-on-save do: parse, process imports (goimports over the generated
+// code; needs a file path), write.
+func FormatFull(src string) (string, error) {
+	tf, err := parser.ParseString(src)
+	if err != nil {
+		return "", err
+	}
+	tf.Filepath = "/tmp/verif-fmt-nonexistent/x.templ"
+	tf, err = imports.Process(tf)
+	if err != nil {
+		return "", err
+	}
+	var b bytes.Buffer
+	if err := tf.Write(&b); err != nil {
+		return "", err
+	}
+	return b.String(), nil
 }
 
 // Format parses and writes once.
@@ -91,6 +113,14 @@ func Inputs(c *core.Ctx, nRandom, mutPer int) []gentie.Input {
 	ins = append(ins, repo...)
 	rnd := gentie.Random(c.Rng, nRandom, tgen.Default())
 	ins = append(ins, rnd...)
+	for i, in := range rnd {
+		if i >= 40 {
+			break
+		}
+		for k, v := range ImportVariants(in.Src) {
+			ins = append(ins, gentie.Input{Name: fmt.Sprintf("%s#imports%d", in.Name, k), Src: v})
+		}
+	}
 	for i, in := range append(append([]gentie.Input{}, repo...), rnd...) {
 		for k, m := range Mutations(c.Rng, in.Src, mutPer) {
 			ins = append(ins, gentie.Input{Name: fmt.Sprintf("%s#mut%d", in.Name, k), Src: m})
@@ -99,6 +129,32 @@ func Inputs(c *core.Ctx, nRandom, mutPer int) []gentie.Input {
 	}
 	return ins
 }
+
+// ImportVariants rewrites the import section of a grammar-generated file (which imports and uses "fmt") into states the
+// imports step of `templ fmt` has to repair: unused imports, a group that shrinks to one import, a missing import,
+// separate import declarations, a named import.
+func ImportVariants(src string) []string {
+	const hdr = "import \"fmt\"\n"
+	if !strings.Contains(src, hdr) {
+		return nil
+	}
+	var res []string
+	for _, v := range []string{
+		"import (\n\t\"fmt\"\n\t\"os\"\n\t\"strings\"\n\t\"strconv\"\n)\n",
+		"import (\n\t\"os\"\n\t\"fmt\"\n\t\"strings\"\n)\n",
+		"import (\n\t\"fmt\"\n\t\"strconv\"\n)\n",
+		"import (\n\t\"fmt\"\n)\n",
+		"",
+		"import \"fmt\"\nimport \"os\"\n",
+		"import (\n\t\"bytes\"\n\t\"context\"\n\t\"fmt\"\n\t\"io\"\n\t\"os\"\n)\n",
+	} {
+		res = append(res, strings.Replace(src, hdr, v, 1))
+	}
+	return res
+}
+
+// fullBudget bounds how many ordinary inputs also go through the (slower) full pipeline; import variants always do.
+var fullBudget = 400
 
 // Run formats one input three times with the real formatter.
 func Run(in gentie.Input) (cs Case, ok bool) {
@@ -135,6 +191,16 @@ func Run(in gentie.Input) (cs Case, ok bool) {
 	p3, _, err := Format(p2)
 	if err == nil {
 		cs.P3 = p3
+	}
+	if !(strings.Contains(in.Name, "#imports") || fullBudget > 0) {
+		return cs, true
+	}
+	fullBudget--
+	if f1, err := FormatFull(in.Src); err == nil {
+		cs.F1 = f1
+		if f2, err := FormatFull(f1); err == nil {
+			cs.F2 = f2
+		}
 	}
 	return cs, true
 }
